@@ -4,6 +4,7 @@ CONSTANTS
   MaxDepth = 3
   Fuel = 80
   Alphabet = {"O", "C", "G", "L", "P"}
+  Shape = "any"
   Names = {"y", "z"}
 INVARIANTS MachineSane NoUB Monitors Scans EmitCase
 CHECK_DEADLOCK FALSE
